@@ -312,7 +312,30 @@ func stackCycle(stderr string) string {
 		}
 	}
 	sortStrings(fns)
+	// A cycle made only of the recursive String / Equals / Copy methods of the
+	// container types is one defect per method, whatever mixture of container
+	// types the script used to close the loop.
+	for _, m := range []string{"String", "Equals", "Copy"} {
+		all := len(fns) > 0
+		for _, fn := range fns {
+			if !isContainerMethod(fn, m) {
+				all = false
+			}
+		}
+		if all {
+			return "cyclic-container:" + m
+		}
+	}
 	return strings.Join(fns, ",")
+}
+
+func isContainerMethod(fn, method string) bool {
+	for _, t := range []string{"Array", "ImmutableArray", "Map", "ImmutableMap", "Error"} {
+		if fn == "(*"+t+")."+method {
+			return true
+		}
+	}
+	return false
 }
 
 func sortStrings(s []string) {
